@@ -1186,6 +1186,10 @@ pub fn gen_control_flow(rng: &mut Rng, avoid: &Avoid) -> Scenario {
                 }));
             }
         }
+        if g.f.on_error_goto_0 && g.rng.chance(1, 5) {
+            // the handler switches error trapping off before it resumes
+            main.push(g.st(StmtKind::OnErrorGoto0));
+        }
         main.push(g.st(StmtKind::Resume(kind)));
     }
     if need_h2 {
